@@ -187,6 +187,12 @@ class PlaceEngine(object):
                     exc[(x, y)] = dict(items)
         if len(dead) == W * H:
             dead.pop()
+        if t.draw(40) == 0:
+            # no working chip at all: nothing can be placed (and an empty
+            # graph still can)
+            dead = {(x, y) for x in range(W) for y in range(H)}
+            exc = {}
+            w.probe("no_working_chip")
         # dead links, each given in one direction only (a link may be listed
         # without its twin): singles, every link out of a chip, every link
         # into a chip, both.  Only placers that look at the machine's links
@@ -256,7 +262,7 @@ class PlaceEngine(object):
         if t.draw(12) == 0:
             n_loc = 3 * len(vs)          # (nearly) every vertex located
         for _ in range(n_loc):
-            if not vs:
+            if not vs or not chips:
                 break
             v = vs[t.draw(len(vs))]
             if v in g.located:
@@ -405,8 +411,12 @@ class PlaceEngine(object):
                          if r.get(par.Cores) and v not in g.located)
             supply = sum(max(0, f.get(par.Cores, 0))
                          for f in self.free_after.values())
-            complete = demand <= supply
-            if complete and supply - demand <= 40 and t.draw(3) == 0:
+            # (a vertex, even one needing nothing, has to sit on some
+            # working chip)
+            complete = demand <= supply and (bool(self.free_after) or
+                                             not g.vertices_resources)
+            if complete and self.free_after and supply - demand <= 40 \
+                    and t.draw(3) == 0:
                 # fill the machine exactly, then a few vertices that need
                 # nothing at all (they fit on full chips)
                 w.probe("exact_fill_then_zero_need")
